@@ -589,3 +589,18 @@ package xmpp
 //
 // Package-level error values are created by package initialisation and never reassigned (scanned).
 //@ globalinv ErrTLSNotSupported != nil && ErrTransportProtocolNotSupported != nil && ErrCanOnlySendGetOrSetIq != nil
+//
+//@ func (*xmpp.XMPPTransport).StartStream(t) (id, err)
+//@   requires t != nil && t.decoder != nil
+//@   emit StreamStarted(iface(t), err == nil)
+//@   ensures [C03.startstream.header] count(Write) >= old(count(Write)) + 1 && arg(Write, old(count(Write)), 0) == iface(t) && arg(Write, old(count(Write)), 1) == sprintf(t.openStatement) && (err == nil ==> count(Write) == old(count(Write)) + 1)
+//@   ensures t.isSecure == old(t.isSecure) && t.Config == old(t.Config)
+//@   emits Write, TokenRead, ChanRecv, Select
+//
+//@ func (*xmpp.XMPPTransport).Connect(t) (id, err)
+//@   requires t != nil
+//@   emit Connected(iface(t), id) when err == nil
+//@   ensures [C04.connect.plain] err == nil ==> !t.isSecure && t.conn != nil && fresh(t.conn) && count(Dialed) == old(count(Dialed)) + 1 && last(Dialed, 0) == t.Config.Address
+//@   ensures t.Config == old(t.Config)
+//@   assigns t.conn, t.closeChan, t.readWriter, t.decoder, t.isSecure
+//@   emits Dialed, Write, TokenRead, ChanRecv, Select, StreamStarted
